@@ -80,6 +80,22 @@ pub fn observe(b: &Board) -> Result<Position, String> {
     p.turn = col_back(b.turn());
     p.half = b.half_move_clock() as u32;
     p.full = b.full_move_clock() as u32;
+    if let Err(why) = observe_rights_from_debug(b, &mut p) {
+        // The Debug rendering is not part of any property.  If it no longer has the shape this
+        // adaptor reads, fall back to the rights / e.p. fields of the FEN writer (the only other
+        // public view of them) and count it, so the evidence shows the weaker channel was used.
+        p.castle = [false; 4];
+        p.ep = None;
+        DEBUG_FALLBACKS.fetch_add(1, std::sync::atomic::Ordering::Relaxed);
+        observe_rights_from_fen(b, &mut p).map_err(|e| format!("{why}; fallback: {e}"))?;
+    }
+    Ok(p)
+}
+
+/// Number of observations that could not use the Debug rendering (see `observe`).
+pub static DEBUG_FALLBACKS: std::sync::atomic::AtomicU64 = std::sync::atomic::AtomicU64::new(0);
+
+fn observe_rights_from_debug(b: &Board, p: &mut Position) -> Result<(), String> {
     let dbg = format!("{b:?}");
     let mut saw_rights = false;
     for line in dbg.lines() {
@@ -118,7 +134,35 @@ pub fn observe(b: &Board) -> Result<Position, String> {
     if !saw_rights {
         return Err("Debug rendering has no 'castle rights:' line".into());
     }
-    Ok(p)
+    Ok(())
+}
+
+fn observe_rights_from_fen(b: &Board, p: &mut Position) -> Result<(), String> {
+    let text = b.to_string();
+    let fields: Vec<&str> = text.split_whitespace().collect();
+    if fields.len() != 6 {
+        return Err(format!("FEN writer produced {} fields: {text:?}", fields.len()));
+    }
+    if fields[2] != "-" {
+        for ch in fields[2].chars() {
+            let i = match ch {
+                'K' => 0,
+                'Q' => 1,
+                'k' => 2,
+                'q' => 3,
+                _ => return Err(format!("unexpected castle rights field {:?}", fields[2])),
+            };
+            p.castle[i] = true;
+        }
+    }
+    if fields[3] != "-" {
+        let f = fields[3].as_bytes()[0];
+        if !(b'a'..=b'h').contains(&f) {
+            return Err(format!("unexpected en-passant field {:?}", fields[3]));
+        }
+        p.ep = Some(f - b'a');
+    }
+    Ok(())
 }
 
 /// Structural invariant of the eight bitboards: two colour sets disjoint, six piece sets pairwise
